@@ -6,7 +6,7 @@ Extraction Language OCaml.
 Extraction "Extract/out/c18model.ml"
   N.add N.mul N.div_eucl N.to_nat N.of_nat Z.of_N Z.opp
   cover_check fastcover_check compute_epochs build_epochs cover_ctx_init fastcover_ctx_init nb_finalize
-  opt_grid grid_cover_jobs grid_fastcover_jobs
+  opt_grid grid_cover_jobs grid_fastcover_jobs opt_entry_cover opt_entry_fast
   compliant_id dict_id get_dict_id finalize_sizes finalize_bytes add_entropy_sizes add_entropy_precheck
   add_entropy_maxdst legacy_gate
   best_init best_start best_finish apply_op run_sequential run_finishes indexed.
